@@ -283,3 +283,58 @@ def contract(ident, **kw):
     c = Contract(ident, **kw)
     REGISTRY[ident] = c
     return c
+
+
+class Lemma(Contract):
+    """
+    A stand-alone implication between contracts/specs (no code involved):
+    setup(it) builds the symbolic environment, `assumes` are assumed,
+    `proves` become obligations named <name>.lemma.<label>.
+    """
+    def __init__(self, name, setup, assumes, proves, props=(), spec_env=None):
+        Contract.__init__(self, 'lemma::' + name, props=props, spec_env=spec_env, name=name)
+        self.setup = setup
+        self.assumes = _labelled(assumes)
+        self.proves = _labelled(proves)
+
+    def verify(self, registry=None, quick=False):
+        t0 = time.time()
+        registry = registry if registry is not None else REGISTRY
+
+        class _Fn(object):
+            ident = self.ident
+
+            def info(s):
+                return {'function': self.ident, 'lines': [0, 0], 'sha256': '-',
+                        'dropped': [], 'note': 'lemma over contracts: no repository code'}
+        report = FunctionReport(self, _Fn())
+
+        def run(path):
+            it = Interp(path, registry=registry, spec_env=dict(self.spec_env), target=self)
+            env = dict(self.spec_env)
+            env.update(self.setup(it))
+            path.inputs = {k: v for k, v in env.items() if k not in self.spec_env}
+            for label, src in self.assumes:
+                path.assume(zbool(it.spec_bool(src, env)))
+            for label, src in self.proves:
+                path.oblige('%s.lemma.%s' % (self.name, label), zbool(it.spec_bool(src, env)),
+                            kind='lemma')
+            return ('return', None)
+
+        def on_path(path, outcome):
+            for ob in path.obligations:
+                if ob.status == 'refuted' and ob.model_obj is not None:
+                    try:
+                        ob.model = self.describe_model(path, ob.model_obj, None)
+                    except Exception as e:
+                        ob.model = {'error': repr(e)}
+                    ob.model_obj = None
+        report.result = explore(run, on_path=on_path)
+        report.seconds = time.time() - t0
+        return report
+
+
+def lemma(name, **kw):
+    c = Lemma(name, **kw)
+    REGISTRY[c.ident] = c
+    return c
